@@ -19,7 +19,7 @@ callees are resolved by the real overload resolution.
 import collections
 import re
 
-from rkstatic.x_vecexpr import (COMPS, FnView, Formula, Inliner, Poly, calls_in, commute, fold_consts, flatten, poly, show, strip_casts, subst,
+from rkstatic.x_vecexpr import (COMPS, FnView, Formula, Inliner, Poly, calls_in, commute, ctor_fields, fold_consts, subst_params, unroll, flatten, poly, show, strip_casts, subst,
                                 tclean, tkey, tparse, unknowns, vecshape)
 
 LEVEL = 'other'
@@ -170,6 +170,8 @@ def tdiff(a, b, out):
                 out.append(('comp', a, b)); return
             if k == 'p':
                 out.append(('param', a, b)); return
+            if k == 'idx' and a[1] == b[1] and a[2][0] == 'lit' and b[2][0] == 'lit':
+                out.append(('index', a, b)); return
             if k in ('b', 'u', 'asg', 'call') and a[1] != b[1]:
                 out.append(('op', a[1], b[1]))
                 for x, y in zip(a[2:], b[2:]):
@@ -198,6 +200,8 @@ def describe_diffs(ds, names):
     for d in ds:
         if d[0] == 'comp':
             out.append('reads `%s` where `%s` is required' % (show(d[1], names), show(d[2], names)))
+        elif d[0] == 'index':
+            out.append('reads element `%s` where `%s` is required' % (show(d[1], names), show(d[2], names)))
         elif d[0] == 'param':
             out.append('uses operand `%s` where `%s` is required' % (show(d[1], names), show(d[2], names)))
         elif d[0] == 'op':
@@ -822,21 +826,33 @@ def fam_argmax(res, s, v, typed_n=None):
 
 
 # ---------------------------------------------------------------------------------- R-C04-5
+def delegation_target(tu, f, v, args):
+    """the constructor a delegating initialiser `vec_t(args...)` selects: resolved callee in a typed instantiation; in a
+    template pattern the unique other constructor of the same class with that many parameters, all of them scalars"""
+    node = getattr(v, 'delegate_node', None)
+    if node is not None:
+        g = tu.callee_fn(tu.strip(node)) or tu.callee_fn(node)
+        if g is not None:
+            return g
+    if not f['dep']:
+        return None
+    cands = []
+    for g in tu.functions.values():
+        if g['dep'] and g.get('ctor') and g.get('recid') == f.get('recid') and g['id'] != f['id'] and len(g['params']) == len(args) \
+                and not g.get('implicit'):
+            gs = signature(tu, g)
+            if all(p['k'] == 'scalar' for p in gs.params):
+                cands.append(g)
+    return cands[0] if len(cands) == 1 else None
+
+
 def fam_ctor(res, s, v):
     n = s.shape['n']
     names = s.names
-    ini = v.inits()
-    if ini is None:
-        res.und(R5, 'constructor declaration not found')
+    got, why = ctor_fields(v.tu, v.f, v, lambda f_, v_, args: delegation_target(v.tu, f_, v_, args))
+    if got is None:
+        res.und(R5, 'constructor: %s' % why)
         return
-    got = {}
-    for fld, t in ini:
-        if fld == '<base>':
-            continue
-        if fld in got:
-            res.und(R5, 'field %s initialised twice' % fld)
-            return
-        got[fld] = t
     bulk = None
     for st in v.body():
         if st[0] == 'expr' and st[1][0] == 'asg' and st[1][1] == '=' and st[1][2][0] == 'm' and st[1][2][1] == ('this',):
@@ -914,7 +930,14 @@ def fam_ctor(res, s, v):
     for k in range(n):
         c = COMPS[k]
         if c not in got:
-            res.bad(R5, 'constructor(%s) never initialises component %s' % (', '.join(form(p, False) for p in ps), c), 'init-' + c)
+            rec = v.tu.node(v.f.get('recid')) or {}
+            inclass = any(fd.get('kind') == 'FieldDecl' and fd.get('name') == c and fd.get('hasInClassInitializer')
+                          for fd in rec.get('inner', ()))
+            if inclass or not rec:
+                res.und(R5, 'constructor(%s): component %s has no initialiser here (default member initialiser / record not in the '
+                            'facts)' % (', '.join(form(p, False) for p in ps), c))
+            else:
+                res.bad(R5, 'constructor(%s) never initialises component %s' % (', '.join(form(p, False) for p in ps), c), 'init-' + c)
             bad = True
             continue
         r = compare(got[c], exp[k], names)
@@ -922,6 +945,8 @@ def fam_ctor(res, s, v):
             dec, desc, kinds = r
             msg = 'constructor(%s): component %s is initialised with `%s`, required `%s` (%s)' % (
                 ', '.join(form(p, False) for p in ps), c, show(got[c], names), show(exp[k], names), desc)
+            if not dec and strip_casts(got[c], pred=lambda ty: True)[0] == 'lit':
+                dec = True      # a compile-time constant where the argument's value is required
             (res.bad(R5, msg, 'init-' + c) if dec else res.und(R5, msg))
             bad = True
     extra = [c for c in got if c not in COMPS[:n] and c != 'padding_']
@@ -1006,7 +1031,7 @@ def fam_vecconv(res, s, v):
 
 
 def fam_stream(res, s, v):
-    b = v.body()
+    b = unroll(list(v.body()))
     chain = [st for st in b if st[0] == 'expr']
     rets = [st for st in b if st[0] == 'ret']
     if len(b) != len(chain) + len(rets) or len(rets) != 1:
@@ -1274,6 +1299,7 @@ def analyse(ctx, tu, label='', ir=None):
                 by_loc.setdefault((f['f'], f['l'], d.get('name')), f)
     covered = set()
     callers = []
+    pending, typed_ok = [], {}
     for f in vec_h_functions(tu):
         s = signature(tu, f)
         fam, fn = classify(tu, f, s)
@@ -1325,10 +1351,19 @@ def analyse(ctx, tu, label='', ir=None):
             if not any(it[0] != 'ok' for it in res.items):
                 typed_callee_check(res, s, v, tu, f, fam)
         decided_by_ir(res, s, ir)
+        decided = all(it[0] == 'ok' for it in res.items)
+        if level == 'typed' and pat is not f:
+            typed_ok.setdefault(pat['id'], []).append(decided)
+        names_called = set()
         try:
-            callers.append((inst, calls_in(tuple(v.body())) | (inl.used_names if inl else set()), all(it[0] == 'ok' for it in res.items)))
+            names_called = calls_in(tuple(v.body())) | (inl.used_names if inl else set())
         except Exception:
             pass
+        if level == 'pattern' and f['dep'] and not decided and not any(it[0] == 'violation' for it in res.items):
+            # the template pattern alone is not decided: wait for the verdicts of its typed instantiations
+            pending.append((f['id'], inst, loc, res, ksig, names_called))
+            continue
+        callers.append((inst, names_called, decided))
         for status, rule, detail, kd in res.items:
             if status == 'ok':
                 ctx.ok(rule, inst, detail, loc)
@@ -1336,6 +1371,25 @@ def analyse(ctx, tu, label='', ir=None):
                 ctx.undecided(rule, inst, detail, loc)
             else:
                 ctx.violation(rule, inst, detail, loc, key='%s|%s|%s|%s' % (rule, VEC_H, ksig, kd))
+    for pid, inst, loc, res, ksig, names_called in pending:
+        oks = typed_ok.get(pid, [])
+        if oks and all(oks):
+            why = '; '.join(it[2] for it in res.items if it[0] == 'undecided')[:160]
+            rule = [it[1] for it in res.items if it[0] == 'undecided'][0]
+            for status, r_, detail, kd in res.items:
+                if status == 'ok':
+                    ctx.ok(r_, inst, detail, loc)
+            ctx.ok(rule, inst, 'decided through its %d typed instantiations in drivers/c04_vec.cpp (each decided with callees resolved and '
+                               'helpers inlined); the dependent pattern alone is not decidable (%s), so other element types are covered '
+                               'only through these instantiations' % (len(oks), why), loc)
+            callers.append((inst, names_called, True))
+        else:
+            callers.append((inst, names_called, False))
+            for status, r_, detail, kd in res.items:
+                if status == 'ok':
+                    ctx.ok(r_, inst, detail, loc)
+                else:
+                    ctx.undecided(r_, inst, detail, loc)
     # functions the classifier does not know: helpers take the verdict of the classified functions that call them
     still = []
     for inst, loc, name, f in unclassified:
